@@ -363,7 +363,15 @@ fn has_empty_size(b: &[u8]) -> bool {
     false
 }
 
+/// (since work-stream C01's `SizeDigit` fix the empty chunk-size line is an error in the code and
+/// in the model, so these inputs are compared like all others; `has_empty_size` only tags them)
+const DIVERT_EMPTY_SIZE: bool = false;
+
 fn push(cases: &mut Vec<String>, s: String) {
+    if !DIVERT_EMPTY_SIZE {
+        cases.push(s);
+        return;
+    }
     if let Some(rest) = s.strip_prefix("chunk ") {
         if let Some(h) = rest.split(' ').last() {
             if crate::common::unhex(h).map(|b| has_empty_size(&b)).unwrap_or(false) {
